@@ -747,7 +747,7 @@ def execStmt : Nat → Stmt → St → St
       if s1.err.isSome then s1 else
       (match sprint s1.rv.v with
        | some m => (match String.fromUTF8? (ByteArray.mk m.toArray) with
-           | some str => if str == "" then s1 else { s1 with err := some (.error str) }   -- newStringError("") is nil
+           | some str => { s1 with err := some (.error str) }
            | none => s1.markUnsup "throw of non-UTF8 text")
        | none => s1.markUnsup "throw value formatting")
     | .module name b =>
